@@ -18,9 +18,16 @@ from . import durable
 KEYS = ['k1', 'k2', 'k3', 'k4']
 
 
-def table():
-    small = common.small_contents()
-    return common.Contents({'k1': small['k1'], 'k2': small['k2'], 'k3': small['k3'], 'k4': small['k6']})
+UNIT = 10                     # bytes per size unit of the sized cases
+SZS = {'k1': 1, 'k2': 2, 'k3': 3, 'k4': 1}
+ONE = {k: 1 for k in KEYS}
+
+
+def table(sz=None):
+    if sz is None:
+        small = common.small_contents()
+        return common.Contents({'k1': small['k1'], 'k2': small['k2'], 'k3': small['k3'], 'k4': small['k6']})
+    return common.Contents({k: (k.encode() * 40)[:sz[k] * UNIT] for k in KEYS})
 
 
 PRE = {
@@ -29,6 +36,7 @@ PRE = {
     'PreBoth': {'pack0': ['k1'], 'live': ['k1'], 'loose': ['k1', 'k2']},
     'PreFull': {'pack0': ['k1', 'k2', 'k3', 'k4'], 'live': ['k1', 'k2', 'k3', 'k4'], 'loose': []},
     'PreAllDel': {'pack0': ['k1', 'k2'], 'live': [], 'loose': ['k3']},
+    'PreNone': {'pack0': [], 'live': [], 'loose': []},
 }
 
 
@@ -51,13 +59,26 @@ def cases():
     for pre in ('PreBoth', 'PreLoose'):
         for k in ('k1', 'k4'):
             out.append(('add', pre, [k], False, False))
+    # roll-over to the next pack
+    for pre in ('PreNone', 'PreBoth'):
+        for noholes in (False, True):
+            for ks in (['k2', 'k3', 'k4'], ['k1', 'k2', 'k1', 'k3']):
+                out.append(('addpack', pre, ks, noholes, False, ONE, 2, 99))
+    for perpack in (False, True):
+        out.append(('pack', 'PreLoose', None, False, perpack, SZS, 3, 99))
+    # import: memory budget, objects above the budget, roll-over, keys the destination already has
+    for pre in ('PreNone', 'PreBoth'):
+        for target in (3, 99):
+            for budget in (1, 2, 3, 99):
+                for ks in (['k1', 'k2', 'k3', 'k4'], ['k3', 'k4', 'k2']):
+                    out.append(('import', pre, ks, False, False, SZS, target, budget))
     return out
 
 
-def build(folder, pre, contents):
+def build(folder, pre, contents, pack_size_target=10 ** 9):
     from disk_objectstore import Container  # pylint: disable=import-outside-toplevel
     cont = Container(folder)
-    cont.init_container(pack_size_target=10 ** 9, loose_prefix_len=2)
+    cont.init_container(pack_size_target=pack_size_target, loose_prefix_len=2)
     spec = PRE[pre]
     if spec['pack0']:
         cont.add_objects_to_pack([contents[k] for k in spec['pack0']])
@@ -73,16 +94,23 @@ def build(folder, pre, contents):
 
 
 def run_case(job):
-    index, (op, pre, ks, noholes, perpack) = job
+    index, case = job
+    op, pre, ks, noholes, perpack = case[:5]
+    sz, target, budget = case[5:] if len(case) > 5 else (None, 99, 99)
     common.import_lib()
     from disk_objectstore import Container  # pylint: disable=import-outside-toplevel
 
-    contents = table()
+    contents = table(sz)
     key = lambda k: hashlib.sha256(contents[k]).hexdigest()  # noqa
     sh = shim.install()
     with common.scratch('mc') as work:
         folder = os.path.join(work, 'c')
-        model_pre = build(folder, pre, contents)
+        model_pre = build(folder, pre, contents, 10 ** 9 if sz is None else target * UNIT)
+        source = None
+        if op == 'import':
+            source = Container(os.path.join(work, 'src'))
+            source.init_container(pack_size_target=10 ** 9, loose_prefix_len=2)
+            source.add_objects_to_pack([contents[k] for k in ks])
         sh.clear()
         sh.add_root(folder, 'c', 2, contents)
         recorder = durable.Recorder(folder, contents)
@@ -104,9 +132,13 @@ def run_case(job):
                 cont.clean_storage()
             elif op == 'add':
                 cont.add_object(contents[ks[0]])
+            elif op == 'import':
+                cont.import_objects([key(k) for k in ks], source, compress=False, target_memory_bytes=budget * UNIT)
         finally:
             sh.enabled = False
         cont.close()
+        if source is not None:
+            source.close()
         recorder.check_rows()
         rows_after = recorder.rows_now()
         sh.clear()
@@ -123,11 +155,11 @@ def run_case(job):
     if ks is None:
         if op == 'pack':     # the order in which the set of loose keys was packed: read off the new rows
             old = {r['k'] for r in model_pre['idx']}
-            ks = [r['k'] for r in sorted(rows_after, key=lambda r: r['off']) if r['k'] not in old]
+            ks = [r['k'] for r in sorted(rows_after, key=lambda r: (r['pack'], r['off'])) if r['k'] not in old]
         else:                # clean: the order of the unlinks
             ks = [e.split(':')[-1] for e in events if e.startswith('unbind:loose:')]
-    return {'name': f'{op}:{pre}:{"-".join(ks)}:nh{int(noholes)}:pp{int(perpack)}', 'op': op, 'pre': model_pre, 'ks': ks,
-            'noholes': noholes, 'perpack': perpack, 'events': events}
+    return {'name': f'{op}:{pre}:{"-".join(ks)}:nh{int(noholes)}:pp{int(perpack)}:t{target}:b{budget}', 'op': op, 'pre': model_pre,
+            'ks': ks, 'noholes': noholes, 'perpack': perpack, 'events': events, 'sz': sz or ONE, 'target': target, 'budget': budget}
 
 
 def check(report: common.Report):
@@ -143,7 +175,7 @@ def check(report: common.Report):
         with open(os.path.join(work, 'MCMaintConf.cfg'), 'w', encoding='utf8') as handle:
             handle.write('SPECIFICATION Spec\nCONSTANTS\n  Keys <- MCKeys\n  Cases <- TraceCases\n  AllowPower = TRUE\n'
                          '  RepackCommitBeforeFsync = FALSE\n  RepackUnlinkOldFirst = FALSE\n  SeekBackWithoutTruncate = FALSE\n'
-                         '  DeleteIndexFirst = FALSE\nINVARIANT Recoverable\nINVARIANT KeysUnique\nINVARIANT DurableVisible\n'
+                         '  DeleteIndexFirst = FALSE\n  RepackNoIntermediateCommit = FALSE\n  ImportFsyncOnlyLast = FALSE\nINVARIANT Recoverable\nINVARIANT KeysUnique\nINVARIANT DurableVisible\n'
                          'INVARIANT Completed\n')
         res = tlc.run('MCMaintConf', 'MCMaintConf.cfg', workers=4, timeout=900, cwd=work, env={'TRACE_FILE': trace_file},
                       java_opts=[f'-DTLA-Library={common.SPEC}'])
@@ -151,10 +183,14 @@ def check(report: common.Report):
         if res.violated:
             print(f'DESIGN-COUNTEREXAMPLE: DosMaint violates {res.violated} on a program compiled for a recorded case')
         tlc.machinery_failure(res, 'MaintConf')
-    mismatches = re.findall(r'<<"MISMATCH", (\d+), "([^"]*)"', res.output)
+    flat = re.sub(r'\s+', ' ', res.output)       # TLC wraps long tuples over several lines
+    mismatches = re.findall(r'<< ?"MISMATCH", (\d+), "([^"]*)"', flat)
+    listed = re.search(r'<< ?"MISMATCHES", \{([^}]*)\}', flat)
+    if listed is None or len([x for x in listed.group(1).split(',') if x.strip()]) != len(mismatches):
+        tlc.machinery_failure(res, 'MaintConf (cannot read the list of mismatches)')
     for index, name in mismatches[:10]:
-        detail = re.search(r'<<"MISMATCH", %s, .*' % index, res.output)
-        print(f'MODEL-DRIFT property={report.prop} at=maintenance case {name}: {detail.group(0)[:500] if detail else ""}')
+        detail = re.search(r'<< ?"MISMATCH", %s, .*?>> >>' % index, flat)
+        print(f'MODEL-DRIFT property={report.prop} at=maintenance case {name}: {detail.group(0)[:700] if detail else ""}')
         report.note(f'model drift: the calls recorded for maintenance case {name} are not the program DosMaint compiles')
     report.add('states', res.distinct)
     report.add('transitions', res.generated)
